@@ -1097,6 +1097,149 @@ namespace Interp
 variable [Mode]
 open Typing
 
+/-! ### extension 2: the rules `i / a : S ⇒ r : S` -/
+@[simp] theorem wf_keyHash (s : List Nat) : WF (.atom .keyHash s) := by simp [WF, HasTy, checkVal, typeOf]
+@[simp] theorem wf_key (s : List Nat) : WF (.atom .key s) := by simp [WF, HasTy, checkVal, typeOf]
+
+/-- a result of a unary rule of extension 2 is a well-formed value of the type the typing rule assigns -/
+theorem wf_contract (t : Ty) (s : List Nat) : WF (.contract t s) := by simp [WF, HasTy, checkVal, typeOf]
+theorem wf_opDelegate (s : List Nat) (d : Option (List Nat)) : WF (.opDelegate s d) := by simp [WF, HasTy, checkVal, typeOf]
+theorem wf_opEmit (s tag : List Nat) (t : Ty) (p : Val) : WF (.opEmit s tag t p) ↔ HasTy p t := by
+  simp [WF, HasTy, checkVal, typeOf]
+theorem wf_opTransfer (s d e : List Nat) (m : Int) (p : Val) (t : Ty) : WF (.opTransfer s d e m p t) ↔ HasTy p t := by
+  simp [WF, HasTy, checkVal, typeOf]
+
+theorem unV_sound (env : Env) (i : Instr) (a r : Val) (hwa : WF a) (h : Spec.unV env i a = .ok r) :
+    WF r ∧ unTy i (typeOf a) = some (typeOf r) := by
+  cases i <;> first | (simp [Spec.unV] at h; done) | skip
+  · -- NAT
+    cases a <;> simp [Spec.unV, Spec.natV] at h
+    subst h; simp [unTy, natTy, typeOf, wf_nat]
+  · -- BYTES
+    simp only [Spec.unV] at h
+    unfold Spec.bytesV at h
+    split at h
+    · split at h
+      · simp at h; subst h; simp [unTy, bytesTy, typeOf]
+      · simp at h
+    · simp at h; subst h; simp [unTy, bytesTy, typeOf]
+    · simp at h
+  · -- VOTING_POWER
+    simp only [Spec.unV] at h
+    unfold Spec.votingPowerV at h
+    split at h
+    · obtain ⟨h1, h2⟩ := numOk_sound _ _ r h
+      simp [unTy, votingPowerTy, typeOf, h1, h2]
+    · simp at h
+  · -- HASH_KEY
+    simp only [Spec.unV] at h
+    unfold Spec.hashKeyV at h
+    split at h
+    · simp at h; subst h; simp [unTy, hashKeyTy, typeOf]
+    · simp at h
+  · -- ADDRESS
+    simp only [Spec.unV] at h
+    unfold Spec.addressV at h
+    split at h
+    · simp at h; subst h; simp [unTy, addressTy, typeOf]
+    · simp at h
+  · -- IMPLICIT_ACCOUNT
+    simp only [Spec.unV] at h
+    unfold Spec.implicitAccountV at h
+    split at h
+    · simp at h; subst h; simp [unTy, implicitAccountTy, typeOf, wf_contract]
+    · simp at h
+  · -- CONTRACT
+    simp only [Spec.unV] at h
+    unfold Spec.contractV at h
+    split at h
+    · split at h
+      · simp at h; subst h; simp [unTy, contractTy, typeOf]
+      · split at h
+        · simp at h; subst h; split <;> simp [unTy, contractTy, typeOf, wf_contract]
+        · simp at h; subst h; simp [unTy, contractTy, typeOf, wf_contract]
+    · simp at h
+  · -- SET_DELEGATE
+    simp only [Spec.unV] at h
+    unfold Spec.setDelegateV at h
+    split at h
+    · simp at h; subst h; simp [unTy, setDelegateTy, typeOf, wf_opDelegate]
+    · simp at h; subst h; simp [unTy, setDelegateTy, typeOf, wf_opDelegate]
+    · simp at h
+  · -- EMIT
+    rename_i tag t
+    simp only [Spec.unV, Spec.emitV] at h
+    split at h
+    · rename_i ht
+      simp at h; subst h
+      refine ⟨?_, by simp [unTy, emitTy, typeOf, ht]⟩
+      rw [wf_opEmit]; exact hasTy_iff.mpr ⟨hwa, ht⟩
+    · simp at h
+  · -- PACK
+    simp only [Spec.unV, Spec.packV] at h
+    split at h
+    · simp at h
+    · rename_i hp
+      simp only [Bool.not_eq_true', Bool.not_eq_false] at hp
+      split at h
+      · simp at h
+      · split at h
+        · simp at h; subst h; simp [unTy, packTy, hp, typeOf]
+        · simp at h
+
+section
+variable (env : Env) (st st' : List Val) (hw : StackWF st)
+include hw
+
+/-- instructions of the form `f a : S → r : S` with a type function `tf` -/
+theorem sound_unop (i : Instr) (f : Val → Res Val) (tf : Ty → Option Ty)
+    (hs : ∀ a st, Spec.step env i (a :: st) = (f a).bind fun r => .ok (r :: st))
+    (hs0 : Spec.step env i [] = .stuck)
+    (ht : ∀ a s, Typing.step i (a :: s) = (tf a).map fun t => .ok (t :: s))
+    (hf : ∀ a r, WF a → f a = .ok r → WF r ∧ tf (typeOf a) = some (typeOf r))
+    (hev : Spec.step env i st = .ok st') :
+    StackWF st' ∧ Typing.step i (st.map typeOf) = some (.ok (st'.map typeOf)) := by
+  rcases st with _ | ⟨a, st⟩
+  · rw [hs0] at hev; cases hev
+  rw [stackWF_cons] at hw
+  rw [hs] at hev
+  cases hq : f a with
+  | stuck => simp [hq] at hev
+  | failed _ => simp [hq] at hev
+  | rtfail => simp [hq] at hev
+  | oof => simp [hq] at hev
+  | offguard => simp [hq] at hev
+  | ok r =>
+    simp only [hq, rbind_ok, Res.ok.injEq] at hev
+    subst hev
+    obtain ⟨h1, h2⟩ := hf a r hw.1 hq
+    simp [ht, h2, stackWF_cons, h1, hw.2]
+
+end
+
+theorem sound_TRANSFER_TOKENS (env : Env) (st st' : List Val) (hw : StackWF st)
+    (hev : Spec.step env .TRANSFER_TOKENS st = .ok st') :
+    StackWF st' ∧ Typing.step .TRANSFER_TOKENS (st.map typeOf) = some (.ok (st'.map typeOf)) := by
+  rcases st with _ | ⟨a, _ | ⟨b, _ | ⟨c, st⟩⟩⟩
+  · simp [Spec.step] at hev
+  · simp [Spec.step] at hev
+  · simp [Spec.step] at hev
+  rw [stackWF_cons, stackWF_cons, stackWF_cons] at hw
+  have hs : Spec.step env .TRANSFER_TOKENS (a :: b :: c :: st)
+      = (Spec.transferTokensV env a b c).bind fun r => .ok (r :: st) := rfl
+  rw [hs] at hev
+  unfold Spec.transferTokensV at hev
+  split at hev
+  · rename_i p m t s
+    split at hev
+    · rename_i ht
+      simp at hev; subst hev
+      refine ⟨?_, by simp [Typing.step, transferTokensTy, typeOf, ht]⟩
+      rw [stackWF_cons, wf_opTransfer]
+      exact ⟨hasTy_iff.mpr ⟨hw.1, ht⟩, hw.2.2.2⟩
+    · simp at hev
+  · simp at hev
+
 /-- PUSH and LAMBDA need the static check of their literal; every other rule without sub-programs is sound as is -/
 def isLiteral : Instr → Bool
   | .PUSH _ _ | .LAMBDA _ _ _ => true
@@ -1181,5 +1324,39 @@ theorem step_sound (env : Env) (i : Instr) (st st' : List Val) (hw : StackWF st)
   case UNPAIRN n => exact sound_UNPAIRN env st st' hw n hev
   case GETN n => exact sound_GETN env st st' hw n hev
   case UPDATEN n => exact sound_UPDATEN env st st' hw n hev
+  case NEVER => exfalso; revert hev; rcases st with _ | ⟨a, st⟩ <;> simp [Spec.step]
+  case NAT =>
+    exact sound_unop env st st' hw .NAT (Spec.unV env .NAT) (unTy .NAT) (fun _ _ => rfl) rfl (fun _ _ => rfl)
+      (unV_sound env .NAT) hev
+  case BYTES =>
+    exact sound_unop env st st' hw .BYTES (Spec.unV env .BYTES) (unTy .BYTES) (fun _ _ => rfl) rfl (fun _ _ => rfl)
+      (unV_sound env .BYTES) hev
+  case VOTING_POWER =>
+    exact sound_unop env st st' hw .VOTING_POWER (Spec.unV env .VOTING_POWER) (unTy .VOTING_POWER) (fun _ _ => rfl) rfl
+      (fun _ _ => rfl) (unV_sound env .VOTING_POWER) hev
+  case HASH_KEY =>
+    exact sound_unop env st st' hw .HASH_KEY (Spec.unV env .HASH_KEY) (unTy .HASH_KEY) (fun _ _ => rfl) rfl
+      (fun _ _ => rfl) (unV_sound env .HASH_KEY) hev
+  case ADDRESS =>
+    exact sound_unop env st st' hw .ADDRESS (Spec.unV env .ADDRESS) (unTy .ADDRESS) (fun _ _ => rfl) rfl
+      (fun _ _ => rfl) (unV_sound env .ADDRESS) hev
+  case IMPLICIT_ACCOUNT =>
+    exact sound_unop env st st' hw .IMPLICIT_ACCOUNT (Spec.unV env .IMPLICIT_ACCOUNT) (unTy .IMPLICIT_ACCOUNT) (fun _ _ => rfl) rfl
+      (fun _ _ => rfl) (unV_sound env .IMPLICIT_ACCOUNT) hev
+  case CONTRACT t ep =>
+    exact sound_unop env st st' hw (.CONTRACT t ep) (Spec.unV env (.CONTRACT t ep)) (unTy (.CONTRACT t ep)) (fun _ _ => rfl) rfl
+      (fun _ _ => rfl) (unV_sound env (.CONTRACT t ep)) hev
+  case SET_DELEGATE =>
+    exact sound_unop env st st' hw .SET_DELEGATE (Spec.unV env .SET_DELEGATE) (unTy .SET_DELEGATE) (fun _ _ => rfl) rfl
+      (fun _ _ => rfl) (unV_sound env .SET_DELEGATE) hev
+  case EMIT tag t =>
+    exact sound_unop env st st' hw (.EMIT tag t) (Spec.unV env (.EMIT tag t)) (unTy (.EMIT tag t)) (fun _ _ => rfl) rfl
+      (fun _ _ => rfl) (unV_sound env (.EMIT tag t)) hev
+  case SELF ep t =>
+    simp [Spec.step] at hev; subst hev; simp [Typing.step, typeOf, stackWF_cons, hw, wf_contract]
+  case TRANSFER_TOKENS => exact sound_TRANSFER_TOKENS env st st' hw hev
+  case PACK =>
+    exact sound_unop env st st' hw .PACK (Spec.unV env .PACK) (unTy .PACK) (fun _ _ => rfl) rfl
+      (fun _ _ => rfl) (unV_sound env .PACK) hev
 
 end Interp
